@@ -19,7 +19,7 @@ META = {
             'to_value() of the returned Integer (99 if the result is not an Integer / an error).',
 }
 RELS = ['eq', 'neq', 'lt', 'gt', 'lte', 'gte']
-SYMS = {'eq': '=', 'neq': '<>', 'lt': '<', 'gt': '>', 'lte': '<=', 'gte': '>='}
+SYMS = {'eq': ['='], 'neq': ['<>', '><'], 'lt': ['<'], 'gt': ['>'], 'lte': ['<=', '=<'], 'gte': ['>=', '=>']}
 
 
 def run(ctx):
@@ -59,7 +59,7 @@ def run(ctx):
         else:
             vx, vy = d.val(x), d.val(y)
         for i, r in enumerate(RELS):
-            o = d.evalv('%s%s%s' % (xt, SYMS[r], yt)) if text else d.call(relfn[i], vx, vy)
+            o = d.evalv('%s%s%s' % (xt, rng.choice(SYMS[r]), yt)) if text else d.call(relfn[i], vx, vy)
             if o['k'] == 'internal':
                 e['k'] = 'internal'
                 e.setdefault('detail', o.get('detail'))
